@@ -127,6 +127,10 @@ pub struct PointInfo<'a> {
 
 pub trait Observer {
     fn at_point(&mut self, st: &Store, m: &Model, info: &PointInfo) -> Result<(), Viol>;
+    /// called once after the final drain (worker idle), before the store is dropped
+    fn at_end(&mut self, _st: &Store, _m: &Model) -> Result<(), Viol> {
+        Ok(())
+    }
     /// called with all reader results of a concurrent-read window
     fn readers_done(&mut self, _m: &Model, _results: Vec<Result<Vec<(crate::model::LogId, String)>, String>>, _step: usize) -> Result<(), Viol> {
         Ok(())
@@ -438,6 +442,9 @@ fn run_inner(case: &SchedCase, obs: &mut dyn Observer, dir: &str) -> Result<RunR
     r.step_ix = h.steps.len();
     if !r.worker_dead {
         r.release(DRAIN, obs, false)?;
+    }
+    if !r.worker_dead && r.st.rl.is_some() {
+        obs.at_end(&r.st, &r.m).map_err(RunErr::Viol)?;
     }
     let final_cfg = r.st.cfg.clone();
     let worker_dead = r.worker_dead;
